@@ -19,7 +19,7 @@ def run(ctx, only=None):
     """only: restrict to these module paths (floors are then scaled to what those modules hold)"""
     ctx.group('R-SIDE')
     repo = ctx.repo
-    cnt = dict(S1=0, S2=0, S3=0, S4=0, S5=0, S6=0)
+    cnt = dict(S1=0, S2=0, S3=0, S4=0, S5=0, S6=0, S7=0)
     for f in repo.all_funcs():
         if f.module.relpath in SKIP:
             continue
@@ -106,6 +106,17 @@ def run(ctx, only=None):
                                 ctx.check('R-SIDE/S2', f, '%s(%s=%s)' % (callee.qual, p, U(a)[:40]), False,
                                           'the %s-side parameter `%s` of %s receives the %s-side argument `%s`'
                                           % (ps, p, callee.qual, es, U(a)[:80]), n)
+                    # S7: a helper without any sided parameter works on ONE table: its sided arguments agree
+                    if not any(side_of_name(p) for p in callee.params) and callee.cls is None \
+                            and callee.module.relpath.endswith(('utils/generic_helper.py', 'utils/validation.py', 'utils/converter.py')):
+                        sd = [(expr_side(a), a) for p, a in bound.items() if callee.defaults.get(p) is not a]
+                        sd = [(x, a) for x, a in sd if x]
+                        if len(sd) >= 2:
+                            cnt['S7'] += 1
+                            if len(set(x for x, _ in sd)) > 1:
+                                ctx.check('R-SIDE/S7', f, U(n)[:70], False,
+                                          '`%s` hands %s to the one-table helper %s: left and right arguments are mixed'
+                                          % (U(n)[:80], ', '.join('`%s` (%s)' % (U(a)[:30], x) for x, a in sd), callee.qual), n)
                     if callee.name.startswith('validate_'):
                         lits = [a.value for a in n.args if isinstance(a, ast.Constant) and isinstance(a.value, str)]
                         ls = None
@@ -134,6 +145,7 @@ def run(ctx, only=None):
     ctx.floor('R-SIDE/S2', cnt['S2'], 600, 'sided parameter bindings')
     ctx.floor('R-SIDE/S3', cnt['S3'], 90, 'sided subscripts')
     ctx.floor('R-SIDE/S4', cnt['S4'], 100, 'sided validator labels')
+    ctx.floor('R-SIDE/S7', cnt['S7'], 80, 'one-table helper calls')
     ctx.floor('R-SIDE/S5', cnt['S5'], 5, 'sided guards')
     ctx.floor('R-SIDE/S6', cnt['S6'], 35, 'sided column lookups')
     # positive fixture
